@@ -174,7 +174,7 @@ func init() {
 		Replace: "\tif !lendPos.AmountIn.Amount.IsPositive() {", Negative: true})
 	addControl(Control{Prop: "C09", Name: "lend-delete-under-GTE", File: "x/liquidationsV2/keeper/liquidate.go",
 		Find:    "\tif !lendPos.AmountIn.Amount.GT(sdk.ZeroInt()) {",
-		Replace: "\tif lendPos.AmountIn.Amount.GTE(sdk.ZeroInt()) {", Rule: "R09.9", Contains: "LiquidateIndividualBorrow"})
+		Replace: "\tif lendPos.AmountIn.Amount.GTE(sdk.ZeroInt()) {", Rule: "R09.9", Contains: "UpdateLockedBorrows"})
 	addControl(Control{Prop: "C09", Name: "v2-borrow-sweep-key-via-locals", File: "x/liquidationsV2/keeper/liquidate.go",
 		Find:    "\tliquidationOffsetHolder, found := k.GetLiquidationOffsetHolder(ctx, types.VaultLiquidationsOffsetPrefix, offsetCounterId)\n\tif !found {\n\t\tliquidationOffsetHolder = types.NewLiquidationOffsetHolder(0)\n\t}\n\tborrowIDs := borrows",
 		Replace: "\tcursorPrefix := types.VaultLiquidationsOffsetPrefix\n\tliquidationOffsetHolder, found := k.GetLiquidationOffsetHolder(ctx, cursorPrefix, offsetCounterId)\n\tif !found {\n\t\tliquidationOffsetHolder = types.NewLiquidationOffsetHolder(0)\n\t}\n\tborrowIDs := borrows", Negative: true})
